@@ -16,7 +16,8 @@
    - [two_step] / [mono_hop]  the two-request composition and the monolithic execution (ProofsTwoStep.v) *)
 From Coq Require Import PeanoNat Lia.
 From Gv Require Import lib.Bytes lib.Json lib.Gql lib.Exec
-     C01.ProofsBase C01.ProofsFuel C01.ProofsSplit C01.ProofsSim C01.ProofsJoin C01.ProofsOverlap C01.ProofsTwoStep.
+     C01.ProofsBase C01.ProofsFuel C01.ProofsSplit C01.ProofsSim C01.ProofsJoin C01.ProofsOverlap C01.ProofsTwoStep
+     C01.ProofsCtxBase C01.ProofsCtx C01.ProofsTwoStepWf C01.ProofsDedup C01.ProofsViol C01.ProofsListHop C01.ProofsListHopWf C01.ProofsAbstractHop.
 Open Scope N_scope.
 
 (* ---- E1: a result without XOutOfFuel does not change when more fuel is supplied ---- *)
@@ -150,7 +151,7 @@ Proof. exact ProofsOverlap.exec_split_overlap_data. Qed.
 Print Assumptions exec_split_overlap_data_partial.
 
 
-(* ---- relocation of the response path; subgraph mode == monolithic mode; the object under _entities ---- *)
+(* ---- relocation of the response path; subgraph mode == monolithic mode; the object under _entities; violations carry errors ---- *)
 Theorem exec_path_shift :
   forall (sc : schema) (U : universe) (frags : list fragment) (vars : list (bytes * json))
   (md : mode) (pre : list pel) (f : nat) (objty : name) (ov : oval)
@@ -188,6 +189,14 @@ Theorem exec_under_entities_eq_mono :
   (exec_sels sc U frags vars Mono f objty {| ov_ent := e; ov_repr := None |} sels []).
 Proof. exact ProofsSim.exec_sels_repr_sim. Qed.
 Print Assumptions exec_under_entities_eq_mono.
+
+Theorem null_propagation_has_errors :
+  forall (sc : schema) (U : universe) (frags : list fragment) (vars : list (bytes * json))
+  (md : mode) (f : nat) (objty : name) (ov : oval) (sels : list selection)
+  (path : list pel) (errs : list xerr),
+  exec_sels sc U frags vars md f objty ov sels path = (None, errs) -> errs <> [].
+Proof. exact ProofsViol.exec_sels_none_errs. Qed.
+Print Assumptions null_propagation_has_errors.
 
 
 (* ---- E3: entity join ---- *)
@@ -426,4 +435,313 @@ Theorem federated_two_step_execute_bridge :
   execute fM sc U Mono (query_doc vdsM [SField af f args dirs (selA ++ selB)] frags) None supM.
 Proof. exact ProofsTwoStep.two_step_execute_bridge. Qed.
 Print Assumptions federated_two_step_execute_bridge.
+
+
+(* ---- (1) context agreement: a request executable on a well-formed subgraph schema runs identically on the supergraph ---- *)
+Theorem req_ok_sound :
+  forall (sc sc' : schema) (U : universe) (frags : list fragment)
+  (vars vars' : list (bytes * json)) (A : bytes -> bool) (k : nat)
+  (objty : name) (e : entity) (ro : option json) (sels : list selection)
+  (path : list pel),
+  config_wf_b sc sc' = true ->
+  univ_ok_b sc' U = true ->
+  (forall n : bytes, A n = true -> assoc n vars' = assoc n vars) ->
+  req_ok_b sc' frags vars A k objty sels = true ->
+  In e U ->
+  en_type e = objty ->
+  forall fuel : nat,
+  exec_sels sc' U frags vars' Mono fuel objty {| ov_ent := e; ov_repr := ro |} sels path =
+  exec_sels sc U frags vars Mono fuel objty {| ov_ent := e; ov_repr := ro |} sels path.
+Proof. exact ProofsTwoStepWf.req_ok_sound. Qed.
+Print Assumptions req_ok_sound.
+
+Theorem req_ok_sound_same_vars :
+  forall (sc sc' : schema) (U : universe) (frags : list fragment) 
+  (vars : list (bytes * json)) (k : nat) (objty : name) (e : entity)
+  (ro : option json) (sels : list selection) (path : list pel),
+  config_wf_b sc sc' = true ->
+  univ_ok_b sc' U = true ->
+  req_ok_b sc' frags vars (fun _ : name => true) k objty sels = true ->
+  In e U ->
+  en_type e = objty ->
+  forall fuel : nat,
+  exec_sels sc' U frags vars Mono fuel objty {| ov_ent := e; ov_repr := ro |} sels path =
+  exec_sels sc U frags vars Mono fuel objty {| ov_ent := e; ov_repr := ro |} sels path.
+Proof. exact ProofsTwoStepWf.req_ok_sound_same_vars. Qed.
+Print Assumptions req_ok_sound_same_vars.
+
+Theorem entity_request_vars_agree :
+  forall (vdsM : list vardef) (supM : list (bytes * json)) (T : name)
+  (selB selsM : list selection),
+  forallb (fun vd : vardef => not_repr (vd_name vd)) vdsM = true ->
+  forall (r : json) (n : name),
+  not_repr n = true ->
+  assoc n (vars2_of vdsM supM T selB r) = assoc n (effective_vars (query_op vdsM selsM) supM).
+Proof. exact ProofsTwoStepWf.vars2_agree_client. Qed.
+Print Assumptions entity_request_vars_agree.
+
+Theorem federated_two_step_wf :
+  forall (U : universe) (sc : schema) (frags : list fragment) (vars : list (bytes * json))
+  (sc1 sc2 : schema) (vds2 : list vardef) (sup2 : list (bytes * json))
+  (root2 : entity) (P : name) (eP : entity) (af : option name) (f : name)
+  (args : list argument) (dirs : list directive) (path : list pel)
+  (nn : bool) (n : name) (td : type_def) (fd : field_def) (T : name)
+  (ks : list name) (selA selB flA flB : list selection) (g0 k1 k2 : nat),
+  bytes_eqb f s_typename = false ->
+  find_type P (s_types sc) = Some td ->
+  find_field f (td_fields td) = Some fd ->
+  fd_type fd = (if nn then TNonNull (TNamed n) else TNamed n) ->
+  is_leaf_kind sc n = Some false ->
+  frags_noent frags = true ->
+  sels_noent [SField af f args dirs (selA ++ key_sels ks)] = true ->
+  sels_noent selB = true ->
+  config_wf_b sc sc1 = true ->
+  univ_ok_b sc1 U = true ->
+  req_ok_b sc1 frags vars (fun _ : name => true) k1 P
+  [SField af f args dirs (selA ++ key_sels ks)] = true ->
+  In eP U ->
+  en_type eP = P ->
+  config_wf_b sc sc2 = true ->
+  univ_ok_b sc2 U = true ->
+  req_ok_b sc2 frags vars not_repr k2 T selB = true ->
+  (forall (r : json) (m : name),
+  not_repr m = true -> assoc m (vars2_of vds2 sup2 T selB r) = assoc m vars) ->
+  find_entity U (s_query sc2) [] = Some root2 ->
+  flatten sc frags vars g0 T selA = FlatOk flA ->
+  flatten sc frags vars g0 T selB = FlatOk flB ->
+  keys_disjoint flA flB = true ->
+  keys_unaliased ks flA = true ->
+  (forall e : entity,
+  obj_target U (hop_cargs sc vars args fd) (hop_fv {| ov_ent := eP; ov_repr := None |} f) =
+  Some (Some e) ->
+  obj_type_ok sc n e = true ->
+  en_type e = T /\
+  find_by_repr U (repr_of e ks) = Some e /\
+  forallb (key_field_ok sc e) ks = true /\ reqs_covered e flB ks = true) ->
+  forall fM f1 f2 : nat,
+  no_oof (snd (mono_hop U sc frags vars P eP af f args dirs path selA selB fM)) = true ->
+  (two_step_fuel ks g0 fM <= f1)%nat ->
+  (two_step_fuel ks g0 fM + g0 <= f2)%nat ->
+  two_step U sc1 frags vars sc2 frags vds2 sup2 P eP af f args dirs path nn T ks selA selB flA
+  f1 f2 = mono_hop U sc frags vars P eP af f args dirs path selA selB fM.
+Proof. exact ProofsTwoStepWf.federated_two_step_wf_main. Qed.
+Print Assumptions federated_two_step_wf.
+
+
+(* ---- (2) list hop: de-duplicated batch fetch, results mapped back by index and merged item-wise ---- *)
+Theorem dedup_transparent :
+  forall (sc : schema) (U : universe) (frags : list fragment) (vars : list (bytes * json))
+  (g : nat) (ovq : oval) (key : name) (a : option name) (args args' : list argument)
+  (dirs : list directive) (ss subs : list selection) (path : list pel)
+  (rs : list json),
+  reprs_of vars args = rs ->
+  reprs_of vars args' = dedup rs ->
+  let r :=
+  exec_field sc U frags vars Sub (S g) (s_query sc) ovq key
+  (SField a s_entities args dirs ss) subs path in
+  let r' :=
+  exec_field sc U frags vars Sub (S g) (s_query sc) ovq key
+  (SField a s_entities args' dirs ss) subs path in
+  exists items' : list json,
+  c_json r' = JArr items' /\
+  c_json r = JArr (undedup rs items') /\ (c_errs r = [] <-> c_errs r' = []).
+Proof. exact ProofsDedup.dedup_transparent_field. Qed.
+Print Assumptions dedup_transparent.
+
+Theorem federated_two_step_list :
+  forall (U : universe) (sc : schema) (frags : list fragment) (vars : list (bytes * json))
+  (sc1 : schema) (frags1 : list fragment) (vars1 : list (bytes * json))
+  (sc2 : schema) (frags2 : list fragment) (vds2 : list vardef) (sup2 : list (bytes * json))
+  (root2 : entity) (P : name) (eP : entity) (af : option name) (f : name)
+  (args : list argument) (dirs : list directive) (path : list pel)
+  (nnl nni : bool) (n : name) (td : type_def) (fd : field_def) (items : list fval)
+  (T : name) (ks : list name) (selA selB flA flB flB2 : list selection)
+  (g0 g2 : nat),
+  bytes_eqb f s_typename = false ->
+  find_type P (s_types sc) = Some td ->
+  find_field f (td_fields td) = Some fd ->
+  fd_type fd = list_ty nnl nni n ->
+  is_leaf_kind sc n = Some false ->
+  hop_fv {| ov_ent := eP; ov_repr := None |} f = FLst items ->
+  frags_noent frags1 = true ->
+  sels_noent [SField af f args dirs (selA ++ key_sels ks)] = true ->
+  (forall fuel : nat,
+  exec_sels sc1 U frags1 vars1 Mono fuel P {| ov_ent := eP; ov_repr := None |}
+  [SField af f args dirs (selA ++ key_sels ks)] path =
+  exec_sels sc U frags vars Mono fuel P {| ov_ent := eP; ov_repr := None |}
+  [SField af f args dirs (selA ++ key_sels ks)] path) ->
+  kind_of sc2 T <> None ->
+  frags_noent frags2 = true ->
+  sels_noent selB = true ->
+  find_entity U (s_query sc2) [] = Some root2 ->
+  flatten sc frags vars g0 T selA = FlatOk flA ->
+  flatten sc frags vars g0 T selB = FlatOk flB ->
+  keys_disjoint flA flB = true ->
+  keys_unaliased ks flA = true ->
+  (forall rs : list json,
+  flatten sc2 frags2 (vars2l_of vds2 sup2 T selB rs) g2 T selB = FlatOk flB2) ->
+  (forall (it : fval) (e : entity),
+  In it items ->
+  obj_target U (hop_cargs sc vars args fd) it = Some (Some e) ->
+  obj_type_ok sc n e = true ->
+  en_type e = T /\
+  find_by_repr U (repr_of e ks) = Some e /\
+  forallb (key_field_ok sc e) ks = true /\
+  reqs_covered e flB2 ks = true /\
+  (forall (rs : list json) (fuel : nat),
+  exec_sels sc2 U frags2 (vars2l_of vds2 sup2 T selB rs) Mono fuel T
+  {| ov_ent := e; ov_repr := None |} selB [] =
+  exec_sels sc U frags vars Mono fuel T {| ov_ent := e; ov_repr := None |} selB [])) ->
+  forall fM f1 f2 : nat,
+  no_oof (snd (mono_hop U sc frags vars P eP af f args dirs path selA selB fM)) = true ->
+  (list_hop_fuel_bound ks g0 fM <= f1)%nat ->
+  (list_hop_fuel_bound ks g0 fM + g2 <= f2)%nat ->
+  fst
+  (two_step_list U sc1 frags1 vars1 sc2 frags2 vds2 sup2 P eP af f args dirs path nnl nni T
+  ks selA selB flA f1 f2) =
+  fst (mono_hop U sc frags vars P eP af f args dirs path selA selB fM) /\
+  (snd
+  (two_step_list U sc1 frags1 vars1 sc2 frags2 vds2 sup2 P eP af f args dirs path nnl nni T
+  ks selA selB flA f1 f2) = [] <->
+  snd (mono_hop U sc frags vars P eP af f args dirs path selA selB fM) = []).
+Proof. exact ProofsListHop.federated_two_step_list_main. Qed.
+Print Assumptions federated_two_step_list.
+
+Theorem federated_two_step_list_wf :
+  forall (U : universe) (sc : schema) (frags : list fragment) (vars : list (bytes * json))
+  (sc1 sc2 : schema) (vds2 : list vardef) (sup2 : list (bytes * json))
+  (root2 : entity) (P : name) (eP : entity) (af : option name) (f : name)
+  (args : list argument) (dirs : list directive) (path : list pel)
+  (nnl nni : bool) (n : name) (td : type_def) (fd : field_def) (items : list fval)
+  (T : name) (ks : list name) (selA selB flA flB : list selection)
+  (g0 k1 k2 : nat),
+  bytes_eqb f s_typename = false ->
+  find_type P (s_types sc) = Some td ->
+  find_field f (td_fields td) = Some fd ->
+  fd_type fd = list_ty nnl nni n ->
+  is_leaf_kind sc n = Some false ->
+  hop_fv {| ov_ent := eP; ov_repr := None |} f = FLst items ->
+  frags_noent frags = true ->
+  sels_noent [SField af f args dirs (selA ++ key_sels ks)] = true ->
+  sels_noent selB = true ->
+  config_wf_b sc sc1 = true ->
+  univ_ok_b sc1 U = true ->
+  req_ok_b sc1 frags vars (fun _ : name => true) k1 P
+  [SField af f args dirs (selA ++ key_sels ks)] = true ->
+  In eP U ->
+  en_type eP = P ->
+  config_wf_b sc sc2 = true ->
+  univ_ok_b sc2 U = true ->
+  req_ok_b sc2 frags vars not_repr k2 T selB = true ->
+  (forall (rs : list json) (m : name),
+  not_repr m = true -> assoc m (vars2l_of vds2 sup2 T selB rs) = assoc m vars) ->
+  find_entity U (s_query sc2) [] = Some root2 ->
+  flatten sc frags vars g0 T selA = FlatOk flA ->
+  flatten sc frags vars g0 T selB = FlatOk flB ->
+  keys_disjoint flA flB = true ->
+  keys_unaliased ks flA = true ->
+  (forall (it : fval) (e : entity),
+  In it items ->
+  obj_target U (hop_cargs sc vars args fd) it = Some (Some e) ->
+  obj_type_ok sc n e = true ->
+  en_type e = T /\
+  find_by_repr U (repr_of e ks) = Some e /\
+  forallb (key_field_ok sc e) ks = true /\ reqs_covered e flB ks = true) ->
+  forall fM f1 f2 : nat,
+  no_oof (snd (mono_hop U sc frags vars P eP af f args dirs path selA selB fM)) = true ->
+  (list_hop_fuel_bound ks g0 fM <= f1)%nat ->
+  (list_hop_fuel_bound ks g0 fM + g0 <= f2)%nat ->
+  fst
+  (two_step_list U sc1 frags vars sc2 frags vds2 sup2 P eP af f args dirs path nnl nni T ks
+  selA selB flA f1 f2) =
+  fst (mono_hop U sc frags vars P eP af f args dirs path selA selB fM) /\
+  (snd
+  (two_step_list U sc1 frags vars sc2 frags vds2 sup2 P eP af f args dirs path nnl nni T ks
+  selA selB flA f1 f2) = [] <->
+  snd (mono_hop U sc frags vars P eP af f args dirs path selA selB fM) = []).
+Proof. exact ProofsListHopWf.federated_two_step_list_wf_main. Qed.
+Print Assumptions federated_two_step_list_wf.
+
+
+(* ---- (3) abstract hop: runtime type read from __typename, entity selection split per concrete type ---- *)
+Theorem flatten_type_dispatch :
+  forall (sc : schema) (frags : list fragment) (vars : list (bytes * json)) 
+  (t : bytes) (s fl : list selection) (tbl : list (name * list selection))
+  (f0 : nat),
+  forallb (fun ts : name * list selection => declared_obj sc (fst ts)) tbl = true ->
+  assoc t tbl = Some s ->
+  unique_key t tbl = true ->
+  flatten sc frags vars f0 t s = FlatOk fl ->
+  flatten sc frags vars (f0 + length tbl + 1) t (type_frags tbl) = FlatOk fl.
+Proof. exact ProofsAbstractHop.flatten_type_dispatch. Qed.
+Print Assumptions flatten_type_dispatch.
+
+Theorem exec_type_dispatch :
+  forall (sc : schema) (U : universe) (frags : list fragment) (vars : list (bytes * json))
+  (md : mode) (f0 f : nat) (t : bytes) (ov : oval) (tbl : list (name * list selection))
+  (s fl : list selection) (p : list pel),
+  forallb (fun ts : name * list selection => declared_obj sc (fst ts)) tbl = true ->
+  assoc t tbl = Some s ->
+  unique_key t tbl = true ->
+  flatten sc frags vars f0 t s = FlatOk fl ->
+  no_oof (snd (exec_sels sc U frags vars md f0 t ov s p)) = true ->
+  (f0 + length tbl + 1 <= f)%nat ->
+  exec_sels sc U frags vars md f t ov (type_frags tbl) p =
+  exec_sels sc U frags vars md f0 t ov s p.
+Proof. exact ProofsAbstractHop.exec_type_dispatch. Qed.
+Print Assumptions exec_type_dispatch.
+
+Theorem federated_two_step_abstract :
+  forall (U : universe) (sc : schema) (frags : list fragment) (vars : list (bytes * json))
+  (sc1 : schema) (frags1 : list fragment) (vars1 : list (bytes * json))
+  (sc2 : schema) (frags2 : list fragment) (vds2 : list vardef) (sup2 : list (bytes * json))
+  (root2 : entity) (P : name) (eP : entity) (af : option name) (f : name)
+  (args : list argument) (dirs : list directive) (path : list pel)
+  (nn : bool) (n : name) (td : type_def) (fd : field_def) (ks : list name)
+  (selA selB : list selection) (tbl : list (name * list selection))
+  (g0 g2 : nat),
+  bytes_eqb f s_typename = false ->
+  find_type P (s_types sc) = Some td ->
+  find_field f (td_fields td) = Some fd ->
+  fd_type fd = (if nn then TNonNull (TNamed n) else TNamed n) ->
+  is_leaf_kind sc n = Some false ->
+  frags_noent frags1 = true ->
+  sels_noent [SField af f args dirs (selA ++ key_sels ks)] = true ->
+  (forall fuel : nat,
+  exec_sels sc1 U frags1 vars1 Mono fuel P {| ov_ent := eP; ov_repr := None |}
+  [SField af f args dirs (selA ++ key_sels ks)] path =
+  exec_sels sc U frags vars Mono fuel P {| ov_ent := eP; ov_repr := None |}
+  [SField af f args dirs (selA ++ key_sels ks)] path) ->
+  frags_noent frags2 = true ->
+  sels_noent selB = true ->
+  find_entity U (s_query sc2) [] = Some root2 ->
+  (forall e : entity,
+  obj_target U (hop_cargs sc vars args fd) (hop_fv {| ov_ent := eP; ov_repr := None |} f) =
+  Some (Some e) ->
+  obj_type_ok sc n e = true ->
+  exists flA flB flB2 : list selection,
+  assoc (en_type e) tbl = Some flA /\
+  kind_of sc2 (en_type e) <> None /\
+  flatten sc frags vars g0 (en_type e) selA = FlatOk flA /\
+  flatten sc frags vars g0 (en_type e) selB = FlatOk flB /\
+  keys_disjoint flA flB = true /\
+  keys_unaliased ks flA = true /\
+  find_by_repr U (repr_of e ks) = Some e /\
+  forallb (key_field_ok sc e) ks = true /\
+  flatten sc2 frags2 (vars2_of vds2 sup2 (en_type e) selB (repr_of e ks)) g2
+  (en_type e) selB = FlatOk flB2 /\
+  reqs_covered e flB2 ks = true /\
+  (forall fuel : nat,
+  exec_sels sc2 U frags2 (vars2_of vds2 sup2 (en_type e) selB (repr_of e ks)) Mono fuel
+  (en_type e) {| ov_ent := e; ov_repr := None |} selB [] =
+  exec_sels sc U frags vars Mono fuel (en_type e) {| ov_ent := e; ov_repr := None |} selB
+  [])) ->
+  forall fM f1 f2 : nat,
+  no_oof (snd (mono_hop U sc frags vars P eP af f args dirs path selA selB fM)) = true ->
+  (two_step_fuel ks g0 fM <= f1)%nat ->
+  (two_step_fuel ks g0 fM + g2 <= f2)%nat ->
+  two_step_abs U sc1 frags1 vars1 sc2 frags2 vds2 sup2 P eP af f args dirs path nn ks selA
+  selB tbl f1 f2 = mono_hop U sc frags vars P eP af f args dirs path selA selB fM.
+Proof. exact ProofsAbstractHop.federated_two_step_abstract_main. Qed.
+Print Assumptions federated_two_step_abstract.
 
